@@ -34,6 +34,7 @@ LEVEL_TEXT = ("26 failure kinds (wrong output of 1-3 lines; exception raised dir
               "report 1 failed / 2 passed with both good doctests executed, the CLI must exit 1 with a final '1 failed, 2 "
               "passed' line. The quick tier enumerates kind x position x verbosity x 2 runners once; the thorough tier adds "
               "Hypothesis-drawn shape combinations.")
+LEVEL_ADDED = ('A further job runs functions without arguments and without doctests through the native runner by name and with zero-all (5 exception types x verbosity 0-3 x 5 module shapes): a raising function is a failed example (tally, exc_info, report, printed text), the run returns its summary.')
 LEVEL_NOTE = ("Trusted: the generator's knowledge of the failing line (for exceptions cross-checked against CPython's own "
               "traceback as in C08). SystemExit / KeyboardInterrupt / GeneratorExit raised by doctest code are meant to "
               "propagate and are not failure kinds here (C12 checks they leave no residue). For a raising __repr__ either the "
